@@ -39,6 +39,13 @@ THEOREMS = [
     "SleapVerif.C08.matches_fixed_optimal_when_feasible",
     "SleapVerif.C08.matches_fixed_lex_optimal",
     "SleapVerif.C08.matches_any_size_counterexample",
+    "SleapVerif.C08.run_matches_lex_optimal",
+    "SleapVerif.C08.run_matches_optimal",
+    "SleapVerif.C08.run_instances",
+    "SleapVerif.C08.assigned_peak_in_row",
+    "SleapVerif.C08.min_peaks_code_rule",
+    "SleapVerif.C08.exLsaOK",
+    "SleapVerif.C08.ex2LsaOK",
     "SleapVerif.C08.final_classes_eq_components",
     "SleapVerif.C08.grouping_total",
     "SleapVerif.C08.grouping_total_batch",
@@ -108,6 +115,16 @@ def random_tree(rng, n):
     return edges
 
 
+def new_val(rng, used):
+    """a peak value not yet used for this node type (the oracle identifies a peak by (node, value), so
+    that peaks of one node type may coincide in space)"""
+    while True:
+        v = rng.randrange(1, 257) / 256.0
+        if v not in used:
+            used.add(v)
+            return v
+
+
 PATTERNS = ["E", "EE", "EEE", "EP", "PE", "PEP", "EPE", "PPE", "EPP", "PEEP", "S", "SP", "PS", "PSP", "SS",
             "ESP", "NP", "PN", "PNP", "EN"]
 
@@ -149,7 +166,7 @@ def gen_case(rng, big=False, pattern=None):
                             todo.remove(e)
                             break
                 for u, xy in pos.items():
-                    if rng.random() < 0.85 and xy not in per_node[u]:
+                    if rng.random() < 0.85 and (xy not in per_node[u] or rng.random() < 0.3):
                         per_node[u].append(xy)
             for u in range(n):
                 if rng.random() < 0.15:
@@ -158,8 +175,9 @@ def gen_case(rng, big=False, pattern=None):
                         per_node[u].append(xy)
             pts, vals, chs = [], [], []
             for u in range(n):
+                uv = set()
                 for xy in per_node[u][:5]:
-                    pts.append([float(xy[0]), float(xy[1])]); vals.append(rng.randrange(1, 33) / 32.0); chs.append(u)
+                    pts.append([float(xy[0]), float(xy[1])]); vals.append(new_val(rng, uv)); chs.append(u)
             perm = list(range(len(pts)))
             rng.shuffle(perm)
             samples.append({"peaks": [pts[i] for i in perm], "vals": [vals[i] for i in perm],
@@ -170,6 +188,7 @@ def gen_case(rng, big=False, pattern=None):
             k = rng.choice([0, 1, 1, 2, 3, 4])
             k = min(k, kmax)
             seen = set()
+            uv = set()
             for _ in range(k):
                 r = rng.random()
                 if r < 0.22 and pts:
@@ -179,11 +198,11 @@ def gen_case(rng, big=False, pattern=None):
                     xy = (rng.randrange(-8, 4 * (W * stride + 8)) / 4.0, rng.randrange(-8, 4 * (H * stride + 8)) / 4.0)
                 else:
                     xy = (rng.randrange(0, 4 * W * stride) / 4.0, rng.randrange(0, 4 * H * stride) / 4.0)
-                if xy in seen:
-                    continue  # peaks of one node type are distinct local maxima
+                if xy in seen and rng.random() < 0.7:
+                    continue  # peaks of one node type are usually distinct local maxima (not always: generated too)
                 seen.add(xy)
                 pts.append(list(xy))
-                vals.append(rng.randrange(1, 33) / 32.0)
+                vals.append(new_val(rng, uv))
                 chs.append(node)
         # the peak finder emits peaks grouped by sample, not necessarily by channel: shuffle sometimes
         if rng.random() < 0.5:
@@ -197,9 +216,13 @@ def gen_case(rng, big=False, pattern=None):
             if kind == "P" and len(set(sm["channels"])) < 2:
                 # make sure a populated frame has at least one candidate connection
                 u, v = edges[0]
-                sm["peaks"] += [[1.0, 1.0], [1.0 + 2 * stride, 1.0]]
-                sm["vals"] += [0.5, 0.75]
-                sm["channels"] += [u, v]
+                for node, xy in ((u, [1.0, 1.0]), (v, [1.0 + 2 * stride, 1.0])):
+                    have = [i for i, c in enumerate(sm["channels"]) if c == node]
+                    while any(sm["peaks"][i] == xy for i in have):
+                        xy = [xy[0] + 0.25, xy[1]]
+                    sm["peaks"].append(xy)
+                    sm["vals"].append(new_val(rng, {sm["vals"][i] for i in have}))
+                    sm["channels"].append(node)
             if kind in "SN":
                 if kind == "S":
                     keep = {rng.choice(sm["channels"])} if sm["channels"] else {rng.randrange(n)}
@@ -212,7 +235,7 @@ def gen_case(rng, big=False, pattern=None):
                 for u in keep:
                     if not any(sm["channels"][i] == u for i in idx):
                         sm["peaks"].append([rng.randrange(0, 4 * W * stride) / 4.0, rng.randrange(0, 4 * H * stride) / 4.0])
-                        sm["vals"].append(rng.randrange(1, 33) / 32.0)
+                        sm["vals"].append(new_val(rng, {sm["vals"][i] for i, c in enumerate(sm["channels"]) if c == u}))
                         sm["channels"].append(u)
                         idx.append(len(sm["channels"]) - 1)
                 for key_ in ("peaks", "vals", "channels"):
@@ -235,9 +258,19 @@ def gen_case(rng, big=False, pattern=None):
                 row.append(px)
             img.append(row)
         paf.append(img)
-    mip = rng.choice([0, 0, 1, 2, 3, 2, 0.5, 0.25, 1.0, 0.75, 0.375, -1, 7])
+    nonfinite = rng.random() < 0.2
+    if nonfinite:
+        # "arbitrary PAF tensors": NaN / ±inf entries give NaN / ±inf line scores in any cell of a cost matrix
+        # (the only way to force the solver through an invalid cell in a matrix larger than 1×1)
+        for b in range(B):
+            for _ in range(rng.choice([1, 2, 4, 8, 16])):
+                paf[b][rng.randrange(H)][rng.randrange(W)][rng.randrange(2 * E)] = rng.choice(
+                    [float("nan"), float("nan"), float("inf"), float("-inf")])
+    # floats: dyadic and non-dyadic (int(q * n_nodes) is a float64 product: 0.6 * 5 -> 3, (1/3) * 9 -> 3)
+    mip = rng.choice([0, 0, 1, 2, 3, 2, 0.5, 0.25, 1.0, 0.75, 0.375, -1, 7,
+                      0.6, 0.7, 1 / 3, 0.3, 0.9, 0.8, 0.4, 0.2, 0.29, 2 / 3, -0.5])
     return {
-        "n": n, "edges": edges, "stride": stride, "pafs": paf, "samples": samples,
+        "n": n, "edges": edges, "stride": stride, "pafs": paf, "samples": samples, "nonfinite": nonfinite,
         "n_points": rng.choice([1, 2, 3, 5, 10]),
         "min_line_scores": rng.choice([-4.0, -0.5, 0.0, 0.25, 0.25, 0.5, "pick"]),
         "min_instance_peaks": mip,
@@ -337,6 +370,18 @@ class Impl:
 
         recording._verif_real = real
         pg.linear_sum_assignment = recording
+        self.rec_assign = []
+        real_a = getattr(pg.assign_connections_to_instances, "_verif_real", pg.assign_connections_to_instances)
+
+        def recording_assign(connections, *a, **k):
+            conns = [(int(et.src_node_ind), int(c.src_peak_ind), int(et.dst_node_ind), int(c.dst_peak_ind), float(c.score))
+                     for et, cs in connections.items() for c in cs]
+            out = real_a(connections, *a, **k)
+            self.rec_assign.append((conns, [(int(p_.node_ind), int(p_.peak_ind), int(i)) for p_, i in out.items()]))
+            return out
+
+        recording_assign._verif_real = real_a
+        pg.assign_connections_to_instances = recording_assign
 
     def scorer(self, case):
         names = [f"n{i}" for i in range(case["n"])]
@@ -432,7 +477,9 @@ def oracle_sample(case, s, mats, impl_matches, min_line, out):
     mip = case["min_instance_peaks"]
     thr = 0
     if mip > 0:
-        thr = int(mip * n) if isinstance(mip, float) else mip
+        # a float is a fraction of the node count; the product is a float64 product (correctly rounded),
+        # computed here through exact rationals, not with the code's expression
+        thr = math.floor(float(Fraction(mip) * n)) if isinstance(mip, float) else mip
     expected = []
     for root, ps in comps.items():
         if len(ps) < thr:
@@ -454,9 +501,8 @@ def oracle_sample(case, s, mats, impl_matches, min_line, out):
             pv = float(pvals[r][node])
             if x != x and y != y and pv != pv:
                 continue
-            hit = [i for i, g in enumerate(node_peaks[node])
-                   if s["peaks"][g][0] == x and s["peaks"][g][1] == y and s["vals"][g] == pv]
-            if len(hit) != 1:
+            hit = [i for i, g in enumerate(node_peaks[node]) if s["vals"][g] == pv]
+            if len(hit) != 1 or s["peaks"][node_peaks[node][hit[0]]] != [x, y]:
                 why.append(f"instance {r} node {node}: ({x},{y},{pv}) is not an input peak of that node type")
                 continue
             if (node, hit[0]) in used:
@@ -586,7 +632,9 @@ def impl_case(chk, impl, case, fixed):
             continue
         info["matches"] = [[(int(i), int(j), F(sc)) for kk, i, j, sc in zip(mk, ms_, md, msc) if kk == k]
                            for k in range(nE)]
+        impl.rec_assign.clear()
         g = call(lambda: scorer.group_instances(peaks, vals, chs, *m[1]))
+        info["assign_rec"] = list(impl.rec_assign)
         gp = nt_parts(g, 3, 1) if g[0] == "ok" else None
         if g[0] == "raise" or gp[0] != "ok":
             info["raise"] = ("group_instances",) + (g[1:] if g[0] == "raise" else ("MalformedOutput", gp[1]))
@@ -650,7 +698,9 @@ def impl_case(chk, impl, case, fixed):
                                  {"frame": b, "inst": outb[0].tolist()}, ["batch_glue"])
                     chk.disagree("predict(batch)[b] == predict(sample b)", {"case": case, "b": b},
                                  [x.tolist() for x in outb], [x.tolist() for x in per[b]["out"]])
-    return {"case": case, "per": per, "lines": lines, "min_line32": min_line32}
+    r_ = call(lambda: [int(i) for i in scorer.sorted_edge_inds])
+    return {"case": case, "per": per, "lines": lines, "min_line32": min_line32,
+            "order": r_[1] if r_[0] == "ok" else r_}
 
 
 def check_cases(chk, impl, tagged_cases, fixed):
@@ -703,6 +753,13 @@ def compare_case(chk, impl, rec, mod, fixed, tag):
                 chk.fail(f"linear_sum_assignment raised {type(exc).__name__}: {exc}", small, str(exc), ["solver_raise"])
             err = lsa_contract(fm, ans)
             chk.tag("lsa_calls")
+            chk.tag(f"lsa_mindim{min(nr, nc)}" + ("_rect" if nr != nc else ""))
+            if ans and info["mats"][k]:
+                inv = [(i, j) for i, j in ans if i < nr and j < nc and info["mats"][k][i][j] is None]
+                if inv:
+                    chk.tag("forced_invalid" if min(nr, nc) > 1 else "forced_invalid_1x1")
+                    if len(inv) < len(ans):
+                        chk.tag("mixed_answer")
             if err:
                 chk.broken.append(f"assumed contract LsaSpec violated by scipy on {mat.tolist()}: {err}")
             mr, mc = int(cm[pos]), int(cm[pos + 1])
@@ -757,6 +814,26 @@ def compare_case(chk, impl, rec, mod, fixed, tag):
                 if mm != info["matches"]:
                     chk.disagree("match_candidates_sample == matchAll", small,
                                  str(info["matches"]), str(mm))
+                # sorted_edge_inds, and the connection dict / instance dict seen at assign_connections_to_instances
+                if [int(x) for x in M.get("order", [])] != rec["order"]:
+                    chk.disagree("PAFScorer.sorted_edge_inds == Toposort.toposort (C17 model)", small,
+                                 rec["order"], M.get("order"))
+                ar = info.get("assign_rec", [])
+                if len(ar) != 1:
+                    chk.disagree("one assign_connections_to_instances call per sample", small, len(ar), 1)
+                else:
+                    t = M["conn"]
+                    mconn = [(int(t[1 + 5 * i]), int(t[2 + 5 * i]), int(t[3 + 5 * i]), int(t[4 + 5 * i]),
+                              Fraction(t[5 + 5 * i])) for i in range(int(t[0]))]
+                    iconn = [(u, si, v, di, Fraction(sc)) for u, si, v, di, sc in ar[0][0]]
+                    if mconn != iconn:
+                        chk.disagree("connections dict (edge order, match order, scores) == connections", small,
+                                     str(iconn), str(mconn))
+                    t = M["asg"]
+                    masg = [(int(t[1 + 3 * i]), int(t[2 + 3 * i]), int(t[3 + 3 * i])) for i in range(int(t[0]))]
+                    if masg != ar[0][1]:
+                        chk.disagree("instance_assignments dict (insertion order, ids) == assignConnections", small,
+                                     str(ar[0][1]), str(masg))
                 # instances
                 t = M["inst"]
                 ni = int(t[0])
@@ -933,14 +1010,21 @@ if __name__ == "__main__":
              "only, N only pairwise non-adjacent node types) through score/match/group_instances_batch and predict "
              "(empty frames, 0..5 peaks per "
              "node on a 1/4-pixel lattice, peaks outside the PAF extent, peaks coinciding with a peak of another node "
-             "type, shuffled channel order) x PAF tensors (noise on a 1/8 lattice, constant fields, mixed, zero) x scorer "
-             "parameters (n_points, min_line_scores incl. one equal to an actual score, min_instance_peaks int/float, "
+             "type or of the same node type, shuffled channel order) x PAF tensors (noise on a 1/8 lattice, constant fields, mixed, zero) "
+             "(20 % of the cases with NaN/±inf entries) x scorer "
+             "parameters (n_points, min_line_scores incl. one equal to an actual score, min_instance_peaks int / dyadic "
+             "and non-dyadic float, "
              "max_edge_length_ratio, dist_penalty_weight); plus arbitrary (also non-tree, non-one-to-one) connection "
              "dicts at unit level. distinct = distinct (skeleton, sample peaks, parameters) with at least one peak / "
              "distinct connection dict; empty samples are trivial",
         assumptions=[
-            "PAF values and peak coordinates are finite (NaN scores then arise only from coincident src/dst peaks)",
-            "peaks of one node type are pairwise distinct points (they are distinct local maxima)",
+            "peak coordinates are finite; PAF entries are arbitrary float32 incl. NaN/±inf (magnitudes ≤ 2: with huge "
+            "magnitudes scipy's float64 optimum is only optimal up to rounding and the contract check would need a "
+            "magnitude-dependent tolerance)",
+            "the peak values of one node type are pairwise distinct (the oracle identifies a peak by (node, value); "
+            "coordinates of one node type may coincide)",
+            "min_line_scores is passed to the model as the float32 value NumPy compares against; a float "
+            "min_instance_peaks as the exact rational of the double, the model rounds the product to float64 itself",
             "skeleton is a tree without duplicate edges (C17's Arbo)",
         ],
     )
